@@ -56,7 +56,7 @@ add("C05", "fault_enumeration",
     "Process-crash model: a prefix of the written bytes survives (no reordering). Tails that roll over are not cut. The expected prefix accounts for bytes the base state already holds (pre-allocated zeros or leftovers of failed appends).",
     "crash-point enumeration over generated histories with a reference-model oracle", "§4 C05")
 add("C06", "fault_enumeration",
-    "For generated histories with rollovers, the three index files of a sealed segment are put into crash states (empty, header only, prefix inside MPHF / records / values, all but one byte, complete) in tape-chosen combinations (and every single-file state per file in the thorough tier); the database must reopen and pass the full audit. Every case first opens the control (all three files complete), which must pass; damaged states currently fail and are listed as known findings by symptom (open fails with an index file empty or cut inside header/MPHF / reads fail / scans silently skip events) - any other way of failing has its own signature and is reported.",
+    "For generated histories with rollovers, the three index files of a sealed segment are put into crash states (empty, header only, prefix inside MPHF / records / values, all but one byte, complete) in tape-chosen combinations (and every single-file state per file in the thorough tier); the database must reopen and pass the full audit. Every case first opens the control (all three files complete), which must pass; damaged states currently fail and are listed as known findings by symptom (open fails when an index file is truncated / reads fail / scans silently skip events) - any other way of failing has its own signature and is reported.",
     "Index prefixes are sampled, not every byte. The sealed data file is assumed complete (fsynced before rollover).",
     "fault enumeration over index-file states with a reference-model oracle", "§4 C06")
 
